@@ -203,6 +203,10 @@ def run(ck: Check) -> int:
                 sr.samples.append({'s': s, 'fnmatch.escape': pat, 'path': path, 'glob.escape': gpat, 'flags': hex(gfl)})
         # ---- every drive / UNC / device shape with magic characters in its components (Windows rules)
         shapes = list(gen.win_drive_patterns(3 if quick else 4))
+        # ... and characters that are magic only under SPLIT / BRACE / NEGATE / EXTGLOB inside the prefix (added after seeded change C09k:
+        # escape() stopped escaping `|` inside a drive / UNC prefix, so under SPLIT the escaped pattern was cut in two)
+        shapes += ['//server/sh|are', '//ser|ver/share', '//?/UNC/h|x/s', '//./vol|ume', '//server/sh{a,b}re', '//?/UNC/h/s{1..2}', '//server/!share', '//ser(ver)/sh@(a)re',
+                   '//server/sh|are/d|r', '//?/c:/a|b', '//server/share/a|b']
         for pth in shapes:
             if not pth:
                 continue
@@ -214,6 +218,17 @@ def run(ck: Check) -> int:
                     if not G.globmatch(full, gp, flags=G.FORCEWIN):
                         ck.report(Failing(f'globmatch({full!r}, escape(unix=False)={gp!r}, FORCEWIN) is False',
                                           {'api': 'globmatch', 's': full, 'pattern': gp, 'flags': G.FORCEWIN}, True, False), None)
+                    for xfl in (G.SPLIT, G.BRACE, G.SPLIT | G.BRACE | G.EXTGLOB | G.NEGATE, G.EXTGLOB | G.MINUSNEGATE | G.NEGATE, G.GLOBTILDE | G.SPLIT):
+                        sr.evaluations += 1
+                        if not G.globmatch(full, gp, flags=G.FORCEWIN | xfl):
+                            kid = 'KF-D28' if (full.replace('\\', '/')[:4] in ('//?/', '//./') and W._get_win_drive(gp, True, False)[1] is None) else None
+                            ck.report(Failing(f'globmatch({full!r}, escape(unix=False)={gp!r}, FORCEWIN and flags {xfl:#x}) is False',
+                                              {'api': 'globmatch', 's': full, 'pattern': gp, 'flags': G.FORCEWIN | xfl}, True, False), kid)
+                        for x in (full.replace('|', 'Z'), full.split('|')[0], full.split('|')[-1], full.replace('{a,b}', 'a'), full.replace('!', '')):
+                            if x and x != full and G.globmatch(x, gp, flags=G.FORCEWIN | xfl) and not equiv(full, x, True, True, True):
+                                kid = 'KF-D28' if (full.replace('\\', '/')[:4] in ('//?/', '//./') and W._get_win_drive(gp, True, False)[1] is None) else None
+                                ck.report(Failing(f'glob.escape({full!r}, unix=False) under flags {xfl:#x} also matches {x!r}',
+                                                  {'api': 'globmatch', 's': full, 'pattern': gp, 'other': x, 'flags': G.FORCEWIN | xfl}, False, True), kid)
                     for x in neighbours(R, full, 8) + [full.replace('*', 'Z'), full.replace('[b]', 'b'), full.replace('?', 'q'), full.replace('!', 'x')]:
                         if x != full and G.globmatch(x, gp, flags=G.FORCEWIN) and not equiv(full, x, True, True, True):
                             # KF-D28: device prefix that the parser does not recognise as a drive
